@@ -519,6 +519,54 @@ func runC01(c *fw.Ctx) {
 		}
 	}
 
+	// (a4) one import-managing FileRestorer prints several unmodified files in turn (files that name
+	// the same imports differently): each comes out byte for byte, in either order
+	if c.Shard == 0 {
+		names := map[string]string{"strings": "strings", "os": "os", "fmt": "fmt", "io": "io"}
+		srcs := []string{
+			"package p\n\nimport (\n\t\"os\"\n\tstr \"strings\"\n)\n\nfunc a() string { return str.ToUpper(os.Args[0]) }\n",
+			"package p\n\nimport (\n\tsys \"os\"\n\t\"strings\"\n)\n\nfunc b() string { return strings.ToLower(sys.Args[0]) }\n",
+			"package p\n\nimport \"fmt\"\n\n// c prints.\nfunc c() { fmt.Println() }\n",
+			"package p\n\nimport (\n\tf \"fmt\"\n\t\"io\"\n\tos2 \"os\"\n)\n\nvar w io.Writer = os2.Stdout\n\nfunc d() { f.Fprintln(w) }\n",
+		}
+		for perm := 0; perm < 6; perm++ {
+			id := fmt.Sprintf("file-restorer-reused-with-imports:%d", perm)
+			c.Case(id, func() {
+				order := [][]int{{0, 1, 2, 3}, {1, 0, 3, 2}, {3, 2, 1, 0}, {2, 3, 0, 1}, {0, 3, 1, 2}, {1, 2, 3, 0}}[perm]
+				fr := decorator.NewRestorerWithImports("example.com/self", simple.New(names)).FileRestorer()
+				c.Observe("entry_points", "one FileRestorer with imports, several files")
+				for _, k := range order {
+					src := []byte(srcs[k])
+					if !corpus.Canonical(src) {
+						return
+					}
+					f, err := decorator.NewDecoratorWithImports(token.NewFileSet(), "example.com/self", goast.WithResolver(simple.New(names))).Parse(src)
+					if err != nil {
+						return
+					}
+					var buf bytes.Buffer
+					if sig, d := fw.Try(func() { err = fr.Fprint(&buf, f) }); sig != "" {
+						c.Violate("reused-file-restorer-panic", sig, id+": "+d, string(src))
+						return
+					}
+					c.Count("files:file-restorer-reused-with-imports", 1)
+					if err != nil || !bytes.Equal(buf.Bytes(), src) {
+						detail := id + fmt.Sprintf(" (order %v, file %d): ", order, k)
+						if err != nil {
+							detail += shortErr(err)
+						} else {
+							detail += obs.DiffContext(buf.Bytes(), src)
+						}
+						c.Violate("roundtrip/file-restorer-reused-with-imports", "roundtrip-file-restorer-reused-with-imports", detail, string(src))
+						return
+					}
+					c.Count("roundtrips_ok", 1)
+				}
+				c.Nontrivial(id)
+			})
+		}
+	}
+
 	// (c) comment mutations
 	mfiles := corpus.Sample(c.Rand("mut-files"), c.Pick(250, 3000))
 	kindsets := [][]string{{"block"}, {"eol", "own"}, {"blank", "own", "ownblk"}, {"block", "eol", "own", "blank", "ownblk", "mlblk"}, {"hang"}, {"hang", "blank", "eol"}}
